@@ -292,6 +292,15 @@ def run_property(pid, tier, budget=1.0, jobs=0, use_known=True):
     if hasattr(mod, "finalize"):
         mod.finalize(merged, tier)
 
+    dump = os.environ.get("VERIF_DUMP_ALL")  # development: write every collected violating case
+    if dump:
+        os.makedirs(dump, exist_ok=True)
+        k = 0
+        for bucket, lst in merged["violations"].items():
+            for v in lst:
+                k += 1
+                with open(os.path.join(dump, f"{pid}-{k:05d}.json"), "w") as f:
+                    json.dump({"property": pid, "bucket": bucket, "detail": v["detail"], "size": v["size"], "case": v["case"]}, f, default=str)
     attributed = Counter()
     reported = []
     for bucket in sorted(merged["violations"]):
